@@ -39,6 +39,12 @@ def run(ctx, col, tier):
     from ..rules import callbacks
     callbacks.check(ctx, col, "R-BRANCH", ctx.repo.get_def("swcgeom.core.tree.Tree.get_branches"))
     callbacks.check(ctx, col, "R-PATH", ctx.repo.get_def("swcgeom.core.tree.Tree.get_paths"))
+    from .c04 import recursion_free
+    col.rule("R-CG", "the decompositions are recursion-free: no strong call-graph cycle is reachable from get_branches / get_paths / get_furcations / get_tips / "
+             "BranchTree.from_tree / ToLongestPath (callbacks excluded), so a chain of any depth is decomposed without growing the interpreter stack", floor=4)
+    for q_ in ("swcgeom.core.tree.Tree.get_branches", "swcgeom.core.tree.Tree.get_paths", "swcgeom.core.tree.Tree.get_furcations", "swcgeom.core.tree.Tree.get_tips",
+               "swcgeom.core.branch_tree.BranchTree.from_tree", "swcgeom.transforms.tree.ToLongestPath.__call__"):
+        col.guard(recursion_free, ctx, col, "R-CG", [q_], f"recursion-free from {q_.rsplit('.', 2)[-2]}.{q_.rsplit('.', 1)[-1]}")
     col.guard(longest, ctx, col)
     col.guard(get_branches, ctx, col)
     col.guard(thresholds, ctx, col)
